@@ -377,6 +377,10 @@ public:
         Raster&>::type
     operator+=(const Raster<OtherNumber>& image)
     {
+        if (cols_ != image.cols() || rows_ != image.rows()) {
+            throw std::invalid_argument(
+                "Raster::operator+=: The number of rows or columns does not match");
+        }
         for_each_zip(
             data_,
             data_ + (cols_ * rows_),
@@ -392,6 +396,10 @@ public:
         Raster&>::type
     operator-=(const Raster<OtherNumber>& image)
     {
+        if (cols_ != image.cols() || rows_ != image.rows()) {
+            throw std::invalid_argument(
+                "Raster::operator-=: The number of rows or columns does not match");
+        }
         for_each_zip(
             data_,
             data_ + (cols_ * rows_),
@@ -407,6 +415,10 @@ public:
         Raster&>::type
     operator*=(const Raster<OtherNumber>& image)
     {
+        if (cols_ != image.cols() || rows_ != image.rows()) {
+            throw std::invalid_argument(
+                "Raster::operator*=: The number of rows or columns does not match");
+        }
         for_each_zip(
             data_,
             data_ + (cols_ * rows_),
@@ -422,6 +434,10 @@ public:
         Raster&>::type
     operator/=(const Raster<OtherNumber>& image)
     {
+        if (cols_ != image.cols() || rows_ != image.rows()) {
+            throw std::invalid_argument(
+                "Raster::operator/=: The number of rows or columns does not match");
+        }
         for_each_zip(
             data_,
             data_ + (cols_ * rows_),
